@@ -183,6 +183,10 @@ def generate(rng):
     for op in ops:
         if op["op"] in ("fit", "fit_predict", "path") and rng.random() < 0.12:
             op["isolate"] = True      # also compare with an execution in the clean room (pristine library state)
+        if op["op"] in ("fit", "fit_predict", "path") and rng.random() < (0.05 if op["op"] == "path" else 0.006):
+            # ... and with an execution in a NEW interpreter that runs under another hash salt (reproducibility across
+            # program runs: a forked process shares the salt of its parent)
+            op["fresh_interpreter"] = 1 + rng.randrange(4000)
     if sparse:
         cfg["params"]["alpha"] = choice(rng, [0.05, 0.5, 2.0])
     return {"property": PROPERTY, "scenario": "lifecycle", "config": cfg, "ops": ops, "faults": {}}
@@ -778,6 +782,31 @@ def execute(record):
                                         d = "differs_from_pristine_process:" + (bad[0] if bad else "?")
                                     elif ret is not None and iso["ret"] != state_fingerprint(list(ret) if isinstance(ret, tuple) else np.asarray(ret)):
                                         d = "differs_from_pristine_process:return"
+                        if d is None and op.get("fresh_interpreter"):
+                            from .. import cleanroom
+                            hs = int(op["fresh_interpreter"])
+                            if str(hs) == os.environ.get("PYTHONHASHSEED"):
+                                hs += 1
+                            status, iso = cleanroom.fresh_interpreter_call(
+                                "gemsim.scenarios.c12", "isolated_execution",
+                                {"cfg": cfg, "params": params_at_call, "which": op.get("data", 0), "kind": kind,
+                                 "args": op.get("args", {}), "no_affinity": bool(op.get("no_affinity")),
+                                 "X_values": np.array(X, copy=True, order="C"),
+                                 "A_values": None if A is None else np.array(A, copy=True),
+                                 "layout": layouts[op.get("data", 0)]}, hs)
+                            if status != "ok":
+                                raise HarnessError("fresh interpreter: " + str(iso))
+                            res.probe("fresh_interpreter_references")
+                            log.emit("FRESH", kind=kind, state=iso.get("state", "raised"))
+                            if "raised" in iso:
+                                d = "raised_in_fresh_interpreter_only"
+                            else:
+                                mine = fitted_state(model)
+                                if state_fingerprint(mine) != iso["state"]:
+                                    bad = [k for k in sorted(mine) if state_fingerprint(mine[k]) != iso["attrs"].get(k)]
+                                    d = "differs_from_fresh_interpreter:" + (bad[0] if bad else "?")
+                                elif ret is not None and iso["ret"] != state_fingerprint(list(ret) if isinstance(ret, tuple) else np.asarray(ret)):
+                                    d = "differs_from_fresh_interpreter:return"
                         if d is not None:
                             res.violate(f"C12:history_dependence:{kind}:{d}", {"history": done, "attr": d,
                                                                            "user_params": {k: repr(v)[:40] for k, v in user_params.items()}})
